@@ -235,3 +235,162 @@ func c09CapturedNode(c *Ctx, p *core.Prog) {
 	}
 	r.OK("captured-node", "scan", "-", sprintf("%d node-typed captures of escaping function literals examined", n))
 }
+
+// memoised-node: sync.OnceValue / OnceValues hand the same value to every caller. An AST node is mutable, is
+// released into the pools with the tree it hangs in, and is rewritten in place by transforms, so a memoised node
+// that is linked into more than one tree makes those trees alias each other. The only accepted use of such a value
+// is as the argument of a copying function (clone…, copy…, deepCopy…) or a nil test.
+func c09MemoisedNode(c *Ctx, p *core.Prog, scopeFns []*ssa.Function, fired map[string]bool) int {
+	r := c.R
+	astSuffix := "pkg/sql/ast"
+	isNodeType := func(t types.Type) bool {
+		if ptr, ok := t.Underlying().(*types.Pointer); ok {
+			t = ptr.Elem()
+		}
+		n := core.NamedOf(t)
+		if n == nil || n.Obj().Pkg() == nil {
+			return false
+		}
+		pp := n.Obj().Pkg().Path()
+		if !core.PathHasSuffix(pp, astSuffix) && !strings.HasPrefix(pp, "gosqlxsa/controls/") {
+			return false
+		}
+		switch n.Underlying().(type) {
+		case *types.Interface, *types.Struct:
+			return true
+		}
+		return false
+	}
+	isCopier := func(f *ssa.Function) bool {
+		if f == nil {
+			return false
+		}
+		l := strings.ToLower(f.Name())
+		return strings.HasPrefix(l, "clone") || strings.HasPrefix(l, "copy") || strings.HasPrefix(l, "deepcopy")
+	}
+	n := 0
+	for _, fn := range scopeFns {
+		seq := 0
+		for _, b := range fn.Blocks {
+			for _, in := range b.Instrs {
+				call, ok := in.(*ssa.Call)
+				if !ok {
+					continue
+				}
+				f := call.Call.StaticCallee()
+				if f == nil {
+					continue
+				}
+				o := f
+				if f.Origin() != nil {
+					o = f.Origin()
+				}
+				if o.Pkg == nil || o.Pkg.Pkg.Path() != "sync" || (o.Name() != "OnceValue" && o.Name() != "OnceValues") {
+					continue
+				}
+				sig, ok := call.Type().Underlying().(*types.Signature)
+				if !ok || sig.Results().Len() == 0 || !isNodeType(sig.Results().At(0).Type()) {
+					continue
+				}
+				n++
+				seq++
+				key := core.FnName(fn) + sprintf("|once#%d", seq)
+				// every place the memoising function is called: here, or in literals that capture it
+				var results []ssa.Value
+				var collect func(fv ssa.Value, depth int)
+				collect = func(fv ssa.Value, depth int) {
+					if depth > 3 {
+						return
+					}
+					for _, ref := range core.Referrers(fv) {
+						switch x := ref.(type) {
+						case *ssa.Call:
+							if x.Call.Value == fv {
+								if sig.Results().Len() == 1 {
+									results = append(results, x)
+								} else {
+									for _, r2 := range core.Referrers(x) {
+										if ex, ok := r2.(*ssa.Extract); ok && ex.Index == 0 {
+											results = append(results, ex)
+										}
+									}
+								}
+							}
+						case *ssa.MakeClosure:
+							if lit, ok := x.Fn.(*ssa.Function); ok {
+								for i, bnd := range x.Bindings {
+									if bnd == fv && i < len(lit.FreeVars) {
+										collect(lit.FreeVars[i], depth+1)
+									}
+								}
+							}
+						case *ssa.Store:
+							// kept in a local cell that a literal captures
+							if al, ok := x.Addr.(*ssa.Alloc); ok && x.Val == fv {
+								for _, r2 := range core.Referrers(al) {
+									if mc, ok := r2.(*ssa.MakeClosure); ok {
+										if lit, ok := mc.Fn.(*ssa.Function); ok {
+											for i, bnd := range mc.Bindings {
+												if bnd == ssa.Value(al) && i < len(lit.FreeVars) {
+													for _, r3 := range core.Referrers(lit.FreeVars[i]) {
+														if ld, ok := r3.(*ssa.UnOp); ok {
+															collect(ld, depth+1)
+														}
+													}
+												}
+											}
+										}
+									}
+									if ld, ok := r2.(*ssa.UnOp); ok {
+										collect(ld, depth+1)
+									}
+								}
+							}
+						}
+					}
+				}
+				collect(call, 0)
+				bad := ""
+				for _, rv := range results {
+					for _, use := range core.Referrers(rv) {
+						switch u := use.(type) {
+						case *ssa.BinOp:
+							continue // nil test
+						case ssa.CallInstruction:
+							if isCopier(u.Common().StaticCallee()) {
+								continue
+							}
+							bad = "the memoised node is passed to " + calleeName(u) + " at " + p.Pos(use.Pos())
+						case *ssa.DebugRef:
+							continue
+						default:
+							bad = "the memoised node is used at " + p.Pos(use.Pos()) + " without being copied"
+						}
+					}
+				}
+				if fired != nil {
+					if bad != "" {
+						fired[key] = true
+					}
+					continue
+				}
+				if bad == "" {
+					r.OK("memoised-node", key, p.Pos(call.Pos()), "every use of the memoised node goes through a copying function")
+				} else {
+					r.Violate("memoised-node", key, p.Pos(call.Pos()), "sync."+o.Name()+" memoises an AST node, and "+bad+": every caller gets the same node, so the trees it is linked into share it (releasing or transforming one changes the others)")
+				}
+			}
+		}
+	}
+	return n
+}
+
+func calleeName(ci ssa.CallInstruction) string {
+	if f := ci.Common().StaticCallee(); f != nil {
+		return f.Name()
+	}
+	if ci.Common().IsInvoke() {
+		return ci.Common().Method.Name()
+	}
+	return "a function value"
+}
